@@ -47,8 +47,22 @@ theorem Rep.congr {C : List Name} {lb lb' : LB} {es : List Entry} (h : Rep C lb 
 theorem stream_state (lb : LB) :
     (stream lb).2.rows = lb.rows ∧ (stream lb).2.chapters = lb.chapters ∧
     (stream lb).2.buffindex = lb.rows.length ∧ (stream lb).2.logHeader = lb.logHeader ∧
-    (stream lb).1 = txt lb.buffindex lb := by
+    (stream lb).1 = txt lb.buffindex (!lb.headerStreamed) lb := by
   cases lb; simp [stream]
+
+/-- the header flag of a stream text, and what the stream does to `header_streamed` -/
+theorem stream_header (lb : LB) :
+    (stream lb).1.header = (!lb.headerStreamed && (lb.buffindex == 0 && decide (0 < lb.rows.length) && lb.logHeader)) ∧
+    (stream lb).2.headerStreamed =
+      (lb.headerStreamed || (lb.buffindex == 0 && decide (0 < lb.rows.length) && lb.logHeader)) := by
+  cases lb with
+  | mk rows chs b h lh hs =>
+    simp only [stream, txt, rows_mk, buffindex_mk, logHeader_mk, headerStreamed_mk]
+    refine ⟨?_, rfl⟩
+    by_cases hz : rows.length = 0
+    · simp [hz]
+    · have : 0 < rows.length := Nat.pos_of_ne_zero hz
+      simp [hz, this, Bool.and_assoc]
 
 theorem setHeader_state (hd : Option (List Name)) (lb : LB) :
     (setHeader hd lb).rows = lb.rows ∧ (setHeader hd lb).chapters = lb.chapters ∧
